@@ -170,8 +170,9 @@ func (w *world) boot() error {
 	scfg := &sender.Config{Size: 100}
 	scfg.Plugins.Http.Enabled = false
 	scfg.Plugins.Poll.Enabled = false
-	// the logical receiver of the scripted scenarios (the random workloads name receivers nobody configured)
-	scfg.Targets = []sender.TargetConfig{{Name: "w", Type: "poll", Data: json.RawMessage(`{"group":"g","id":"w"}`)}}
+	// the logical receivers the workloads name are configured targets: hand-offs fail only when the harness says so
+	scfg.Targets = []sender.TargetConfig{{Name: "w", Type: "poll", Data: json.RawMessage(`{"group":"g","id":"w"}`)},
+		{Name: "w1", Type: "poll", Data: json.RawMessage(`{"group":"g","id":"w1"}`)}}
 	if w.sender, err = sender.New(w.aio, mt, scfg); err != nil {
 		return err
 	}
